@@ -30,7 +30,8 @@ def segs_of(ref, hap, base=10):
 
 def gfa_text(segs, walks, rnd=None):
     lines = []
-    for n, s in segs.items():
+    # segment lines are deliberately NOT in offset order (a contig inserted in reverse has descending SO in real rGFAs)
+    for n, s in sorted(segs.items(), key=lambda kv: (-kv[1]["so"], kv[0])):
         seq = "".join("ACGT"[(7 * i + len(n) + s["so"]) % 4] for i in range(s["ln"]))
         lines.append(f"S\t{n}\t{seq}\tLN:i:{s['ln']}\tSN:Z:{s['sn']}\tSO:i:{s['so']}\tSR:i:{s['sr']}")
     links = set()
@@ -115,6 +116,12 @@ def random_graph_jobs(rnd, n, mode, maxref=6, maxhap=4, maxlen=5, maxwalk=6, nwa
         ref = [rnd.randint(1, maxlen) for _ in range(rnd.randint(1, maxref))]
         hap = [(0 if i == 0 else rnd.choice([0, 0, 4]), rnd.randint(1, maxlen)) for i in range(rnd.randint(0, maxhap))]
         segs = segs_of(ref, hap)
+        if gi % 3 == 1:      # a second rank-0 contig, tiled from 0 as well
+            so = 0
+            for j in range(rnd.randint(1, 3)):
+                ln = rnd.randint(1, maxlen)
+                segs[f"t{j + 1}"] = {"sn": "chr2", "so": so, "ln": ln, "sr": 0}
+                so += ln
         names = list(segs)
         walks = []
         for wi in range(nwalks):
